@@ -135,3 +135,80 @@ Proof.
   rewrite Ht, (set_no_panic [] (mkLock (rs r) (re r) (rown r) (ty_of (rex r))) eq_refl Hr) in Es.
   inversion Es; subst. eexists. reflexivity.
 Qed.
+
+(* Every held byte has a cause among the granted requests. *)
+Definition caused (l : list lock) (G : list req) : Prop :=
+  forall o b k, kind_at l o b = Some k ->
+    exists p, In p G /\ rown p = o /\ rs p <= b /\ b < re p /\ ty_of (rex p) = k.
+
+Lemma denied_has_cause l G q c : wf l = true -> rs q < re q -> caused l G ->
+  test l (mkLock (rs q) (re q) (rown q) (ty_of (rex q))) = Some c ->
+  exists p, In p G /\ req_conflict p q = true.
+Proof.
+  intros Hwf Hq HJ Ht. apply test_some in Ht as [Hin Hc].
+  unfold conflicts, overlaps in Hc. cbn [lowner lstart lend ltyp] in Hc.
+  rewrite !Bool.andb_true_iff in Hc. destruct Hc as [[Ho [Ho1 Ho2]] Hx].
+  apply N.ltb_lt in Ho1, Ho2. apply Bool.negb_true_iff, N.eqb_neq in Ho.
+  pose proof (wf_entry l c Hwf Hin) as He. unfold entry_ok in He.
+  apply Bool.andb_true_iff in He. destruct He as [He _]. apply N.ltb_lt in He.
+  set (b := N.max (lstart c) (rs q)).
+  assert (Hcov : covers c (lowner c) b = true).
+  { unfold covers. rewrite N.eqb_refl. cbn [andb]. apply Bool.andb_true_iff.
+    split; [apply N.leb_le|apply N.ltb_lt]; unfold b; lia. }
+  pose proof (kind_at_unique l c (lowner c) b Hwf Hin Hcov) as Hk.
+  destruct (HJ _ _ _ Hk) as (p & Hp & Hop & Hb1 & Hb2 & Hty).
+  exists p. split; [exact Hp|]. unfold req_conflict.
+  replace (rown p =? rown q) with false by (symmetry; apply N.eqb_neq; congruence). cbn [negb andb].
+  replace (rs p <? re q) with true by (symmetry; apply N.ltb_lt; unfold b in *; lia).
+  replace (rs q <? re p) with true by (symmetry; apply N.ltb_lt; unfold b in *; lia). cbn [andb].
+  rewrite <- Hty in Hx. destruct (rex p), (rex q); cbn in Hx |- *; congruence.
+Qed.
+
+Lemma round_inv_denied : forall rq l G,
+  wf l = true -> Forall (fun r => rs r < re r) rq -> caused l G ->
+  forall q, In (q, false) (round l rq) ->
+    exists p, (In p G \/ In (p, true) (round l rq)) /\ req_conflict p q = true.
+Proof.
+  induction rq as [|r tl IH]; intros l G Hwf Hv HJ q Hq; [destruct Hq|].
+  inversion Hv as [|? ? Hr Hvt]; subst.
+  cbn [round] in Hq |- *.
+  destruct (step l (req_op r)) as [l1 x] eqn:Es.
+  pose proof Es as Es'. unfold req_op in Es'. cbn [step step_base] in Es'.
+  destruct (test l (mkLock (rs r) (re r) (rown r) (ty_of (rex r)))) as [c|] eqn:Et.
+  - inversion Es'; subst l1 x. cbn [is_granted] in Hq |- *.
+    destruct Hq as [Hq|Hq].
+    + inversion Hq; subst q. destruct (denied_has_cause l G r c Hwf Hr HJ Et) as (p & Hp & Hc).
+      exists p. split; [left; exact Hp|exact Hc].
+    + destruct (IH l G Hwf Hvt HJ q Hq) as (p & [Hp|Hp] & Hc); exists p; (split; [|exact Hc]).
+      * left; exact Hp.
+      * right; right; exact Hp.
+  - rewrite (set_no_panic l (mkLock (rs r) (re r) (rown r) (ty_of (rex r))) Hwf Hr) in Es'.
+    inversion Es'; subst l1 x. cbn [is_granted] in Hq |- *.
+    destruct Hq as [Hq|Hq]; [discriminate|].
+    assert (HJ' : caused (set_list (set l (mkLock (rs r) (re r) (rown r) (ty_of (rex r))))) (r :: G)).
+    { intros o b k Hk.
+      pose proof (lock_bytes l (rown r) (rex r) (rs r) (re r) (set_delta (set l (mkLock (rs r) (re r) (rown r) (ty_of (rex r))))) o b Hwf Hr) as H.
+      cbn [step step_base] in H.
+      rewrite Et, (set_no_panic l (mkLock (rs r) (re r) (rown r) (ty_of (rex r))) Hwf Hr) in H.
+      cbn [fst snd] in H. rewrite (H eq_refl) in Hk.
+      destruct ((o =? rown r) && (rs r <=? b) && (b <? re r))%bool eqn:E.
+      - rewrite !Bool.andb_true_iff in E. destruct E as [[E1 E2] E3].
+        apply N.eqb_eq in E1. apply N.leb_le in E2. apply N.ltb_lt in E3.
+        exists r. repeat split; auto; [left; reflexivity|congruence].
+      - destruct (HJ _ _ _ Hk) as (p & Hp & Hrest). exists p. split; [right; exact Hp|exact Hrest]. }
+    destruct (IH _ (r :: G) (set_wf l (mkLock (rs r) (re r) (rown r) (ty_of (rex r))) Hwf Hr) Hvt HJ' q Hq) as (p & Hp & Hc).
+    exists p. split; [|exact Hc]. destruct Hp as [[Hp|Hp]|Hp].
+    + right; left; rewrite Hp; reflexivity.
+    + left; exact Hp.
+    + right; right; exact Hp.
+Qed.
+
+(* Every denied request of a round conflicts with a granted one. *)
+Lemma round_denied_conflicts : forall rq, Forall (fun r => rs r < re r) rq ->
+  forall q, In (q, false) (round [] rq) ->
+    exists p, In (p, true) (round [] rq) /\ req_conflict p q = true.
+Proof.
+  intros rq Hv q Hq.
+  destruct (round_inv_denied rq [] [] eq_refl Hv (fun o b k H => ltac:(discriminate H)) q Hq) as (p & [[]|Hp] & Hc).
+  exists p. split; assumption.
+Qed.
